@@ -24,6 +24,8 @@ class Unmodelled(Exception):
 
 
 def jterm(x):
+    if isinstance(x, __import__("enum").Enum):
+        x = x.value                      # what a JSON encoder writes for an Enum member (IntEnum / str-mixin members are ints / strs)
     if x is None:
         return ["z"]
     if isinstance(x, bool):
@@ -31,14 +33,14 @@ def jterm(x):
     if isinstance(x, int):
         if abs(x) >= 2 ** 31:
             raise Unmodelled("big int")
-        return ["n", x]
+        return ["n", int(x)]
     if isinstance(x, float):
         f = abstract_float(x)
         if f[0] != "float":
             raise Unmodelled("float outside the term language")
         return ["f", f[1], f[2]]
     if isinstance(x, str):
-        return ["s", x]
+        return ["s", str.__str__(x) if type(x) is not str else x]
     if isinstance(x, (list, tuple)):
         return ["a", [jterm(e) for e in x]]
     if isinstance(x, dict):
